@@ -545,6 +545,8 @@ def m_from_residual(ctx):
         return [(None, enum(ctx.ret_ty, 'Err', [e if e is not None else Obj('Report', kind='error')]))]
     if isinstance(r, Obj) and r.discr == 'None':
         return [(None, enum(ctx.ret_ty, 'None'))]
+    if re.search(r'Option<.*> as FromResidual<(std::option::|core::option::)?Option<Infallible>>>::from_residual$', ctx.callee):
+        return [(None, enum(ctx.ret_ty, 'None'))]      # Option<Infallible> has the single inhabitant None
     return [(None, r)]
 
 
@@ -1563,3 +1565,34 @@ def _patch_engine_locs():
 
 
 _patch_engine_locs()
+
+
+@model(r'^<(std::collections::)?(HashMap|BTreeMap|IndexMap|HashSet|BTreeSet|IndexSet)<.*> as Extend<.*>>::extend(::<.*>)?$')
+def m_map_extend(ctx):
+    """extend from a shaped container / iterator with concrete shape: entries are appended (lookups scan newest-first, so duplicates shadow;
+    len() on possibly-equal keys raises, as for insert)"""
+    ex, st = ctx.ex, ctx.st
+    m = shaped(ex, st, ctx.args[0], 'map')
+    src = ex.deref_val(st, ctx.args[1])
+    if isinstance(src, Obj) and src.kind == 'iter':
+        src = src.attrs.get('src') if src.attrs.get('pos', 0) == 0 and not src.attrs.get('fn') else None
+    if not isinstance(src, Obj) or 'items' not in src.attrs:
+        raise MirError(f'extend from unshaped source {src!r}')
+    is_set = 'Set' in type_head(m.ty)
+    for it in src.attrs['items']:
+        if isinstance(it, tuple):
+            m.attrs['items'].append((it[0], it[1]))
+        else:
+            m.attrs['items'].append((it, ()))
+    if src.attrs['items'] and 'BTree' in m.ty:
+        m.attrs['unsorted'] = True
+    return [(None, ())]
+
+
+@model(r'^core::bool::<impl bool>::then_some(::<.*>)?$')
+def m_bool_then_some(ctx):
+    c = ctx.ex.deref_val(ctx.st, ctx.args[0])
+    v = ctx.args[1]
+    if z3.is_bv(c):
+        c = c != 0
+    return [(c, (lambda s2: some(s2.tr(v)))), (z3.Not(c), none())]
